@@ -288,3 +288,36 @@ Example C02_example_whitespace :
   texts (build (IBox [IText WNormal [32; 97; 32; 10]%N; IBox [IText WNormal [32; 98]%N]]))
   = [(WNormal, [32; 97; 32]%N); (WNormal, [98]%N)].
 Proof. vm_compute. reflexivity. Qed.
+
+(* --- the re-split of splitInlineBox (inline.go:877-902: the last child of an inline box fits
+   on the line, but not followed by the box's end padding / border / margin; it is split again,
+   and once more at its last possible break point).  Every single split is a consistent step;
+   the step that keeps the box of the split at k_last and resumes where the split at k_res
+   says conserves the text if and only if both come from the same split. *)
+Theorem C02_split_step_ok : forall (U : Type) (ws : list U) k,
+  step_ok nat U (text_from U ws) (split_step U ws k).
+Proof. exact split_step_ok. Qed.
+Print Assumptions C02_split_step_ok.
+
+Theorem C02_split_retry_same_split_iff : forall (U : Type) (ws : list U) k_last k_res,
+  k_last <= length ws -> k_res <= length ws ->
+  (step_ok nat U (text_from U ws) (retry_step U ws k_last k_res) <-> k_res = k_last).
+Proof. exact split_retry_same_split_iff. Qed.
+Print Assumptions C02_split_retry_same_split_iff.
+
+(* `aa bb cc` kept up to `bb` (2 units) while the resume point is the one of the split after
+   `aa`: `bb` is laid out twice *)
+Example C02_example_split_retry_duplicates :
+  let s := retry_step nat [1; 2; 3] 2 1 in
+  placed s ++ text_from nat [1; 2; 3] 1 = [1; 2; 2; 3].
+Proof. reflexivity. Qed.
+
+(* --- a fragmented break-inside: avoid block that is cancelled and laid out again on the next
+   page (blocks.go:485-499): the text of an out-of-flow child broken by the same page end is
+   laid out exactly once iff the cancelled layout left no continuation of it registered (or
+   one that designates nothing) *)
+Theorem C02_cancelled_block_registration_iff : forall (U : Type) (text : list U) registered,
+  cancel_restart_text U text registered = text <->
+  match registered with Some p => skipn p text = [] | None => True end.
+Proof. exact cancelled_block_registration_iff. Qed.
+Print Assumptions C02_cancelled_block_registration_iff.
